@@ -164,6 +164,8 @@ def init_params_table():
     for d in (1, 2, 3):
         for cuts in (1, 2, 3):
             masks = [None] + [np.array(m) for m in itertools.product([True, False], repeat=d)]
+            # a 0/1 mask of integer dtype is a legal ndarray mask too (entry-wise truth value), it must select the same features
+            masks += [np.array(m).astype(t) for m in itertools.product([True, False], repeat=d) for t in (np.int64, np.uint8)][:: (1 if d < 3 else 3)]
             for mask in masks:
                 m = DG.Douglas(n_clusters=3, n_cuts=cuts, feature_mask=mask)
                 X = np.zeros((4, d))
@@ -176,7 +178,7 @@ def init_params_table():
                     det = {"features": [j for j, _ in m.cut_points_list_], "leaf_scores": list(m.leaf_scores_.shape)}
                 except Exception as e:
                     ok, det = False, {"exception": repr(e)}
-                obs.append(Ob(f"Douglas._init_params[d={d},cuts={cuts},mask={None if mask is None else mask.tolist()}]: cut points only for unmasked features, (n_cuts+1)^used leaves",
+                obs.append(Ob(f"Douglas._init_params[d={d},cuts={cuts},mask={None if mask is None else mask.tolist()}{'' if mask is None or mask.dtype == bool else ' as ' + str(mask.dtype)}]: cut points only for unmasked features, (n_cuts+1)^used leaves",
                               PROVED if ok else REFUTED, "enumeration", "P", {**det, "replayed": True}, fn=fn))
             # wrong mask length is rejected
             m = DG.Douglas(n_cuts=cuts, feature_mask=np.array([True] * (d + 1)))
